@@ -227,6 +227,31 @@ def check_skeleton(M):
         have = {c for c in M.top if name in M.methods(c)}
         if have != want_cls:
             raise TranslationError("method %s is defined by %s, expected %s" % (name, sorted(have), sorted(want_cls)))
+    # the generation counter is a class attribute that instances only ever increment: rebuild() runs
+    # __init__ again on a live registry, so (re)initialising it there would let it fall
+    gens0 = [n for n in M.cls("BaseAdapterRegistry").body
+             if isinstance(n, ast.Assign) and match(n, "_generation = 0") is not None]
+    if len(gens0) != 1:
+        raise TranslationError("BaseAdapterRegistry does not define the class attribute _generation = 0 exactly once")
+    for c in ("BaseAdapterRegistry", "AdapterRegistry", "VerifyingAdapterRegistry"):
+        for mname, fn in M.methods(c).items():
+            for n in ast.walk(fn):
+                tg = []
+                if isinstance(n, ast.Assign):
+                    tg = n.targets
+                elif isinstance(n, (ast.AnnAssign, ast.AugAssign)):
+                    tg = [n.target]
+                elif isinstance(n, ast.Delete):
+                    tg = n.targets
+                for x in tg:
+                    for y in ast.walk(x):
+                        if isinstance(y, ast.Attribute) and y.attr == "_generation":
+                            if isinstance(n, ast.AugAssign) and (c, mname) == ("BaseAdapterRegistry", "changed"):
+                                continue
+                            _fail(n, "%s.%s writes _generation (only BaseAdapterRegistry.changed may, by += 1)" % (c, mname))
+                if isinstance(n, ast.Call) and isinstance(n.func, ast.Name) and n.func.id in ("setattr", "delattr") \
+                        and any(isinstance(a, ast.Constant) and a.value == "_generation" for a in n.args):
+                    _fail(n, "%s.%s writes _generation through setattr" % (c, mname))
     # assignments to registry.__bases__ go through _setBases
     props = [n for n in M.cls("BaseAdapterRegistry").body if isinstance(n, ast.Assign)
              and any(isinstance(t, ast.Name) and t.id == "__bases__" for t in n.targets)]
